@@ -459,5 +459,5 @@ func c17Gen(t *rapid.T) c17Case {
 }
 
 func TestC17(t *testing.T) {
-	ev.Check(t, "c17_cli", ev.N(480, 8000), c17Gen, c17Run)
+	ev.Check(t, "c17_cli", ev.N(1600, 16000), c17Gen, c17Run)
 }
